@@ -25,6 +25,7 @@ type tableFeat struct {
 	Cols       int    `json:"cols"`
 	Short      bool   `json:"short"`
 	LateWide   bool   `json:"latewide"`
+	Span       bool   `json:"span"`
 	Header     string `json:"header"`
 	CellAttr   string `json:"cellAttr"`
 	Summary    bool   `json:"summary"`
@@ -35,7 +36,7 @@ func featOf(c Case) tableFeat {
 	return tableFeat{
 		Editable: c.boolean("editable", false), Role: c.str("role", "none"), DescRole: c.str("descRole", "none"),
 		Datatable0: c.boolean("datatable0", false), Nested: c.boolean("nested", false), Rows: c.num("rows", 2),
-		Cols: c.num("cols", 2), Short: c.boolean("short", false), LateWide: c.boolean("latewide", false), Header: c.str("header", "none"),
+		Cols: c.num("cols", 2), Short: c.boolean("short", false), LateWide: c.boolean("latewide", false), Span: c.boolean("span", false), Header: c.str("header", "none"),
 		CellAttr: c.str("cellAttr", "none"), Summary: c.boolean("summary", false), Object: c.str("object", "none"),
 	}
 }
@@ -69,12 +70,19 @@ func buildTable(f tableFeat, g *docGen) string {
 		if lateWide && i < f.Rows-1 {
 			n = 1
 		}
+		span := f.Span && !f.Short && !f.LateWide && f.Cols > 2
+		if span {
+			n--
+		}
 		if f.Header == "rowth" {
 			// a header cell in front of every row (key / value tables): columns are counted in td cells
 			rows[i] = append(rows[i], &cell{th: true, inner: g.words(1)})
 		}
 		for j := 0; j < n; j++ {
 			c := &cell{th: f.Header == "th" && i == 0, inner: g.words(1)}
+			if span && j == 0 {
+				c.attrs = ` colspan="2"`
+			}
 			rows[i] = append(rows[i], c)
 			if !c.th {
 				tds = append(tds, c)
